@@ -62,7 +62,7 @@ Fixpoint add_all (t : tables) (m : message) (kids : list node) : result message 
   | k :: rest =>
       do _ <- (match node_str_name k with
                | None => if is_strict lvl then Err (HL7 EChildNotValid) else Ok tt
-               | Some n => child_admission t lvl true (m_name m) (m_st m)
+               | Some n => child_acceptance t lvl true (m_name m) (m_st m)
                                        (flat_map (fun c => match node_str_name c with Some x => [x] | None => [] end)
                                                  (m_children m)) n
                end);
